@@ -22,9 +22,67 @@ pub enum Cid {
     MDna,
     MIupac,
     Degen,
+    /// harness-defined derived codecs (not part of `ALL`): a 2-bit alphabet whose complement is not a bit
+    /// inversion, and a 3-bit alphabet with alternative codes, gaps in the code space and its own complement
+    X2,
+    X3,
+}
+
+/// A user-style 2-bit codec: A=00 T=01 C=10 G=11, complement A<->T, C<->G (so NOT `code ^ 0b11`).
+#[derive(Clone, Copy, Debug, PartialEq, Eq, PartialOrd, Ord, Hash, Codec)]
+#[bits(2)]
+#[repr(u8)]
+pub enum Gc2 {
+    A = 0b00,
+    T = 0b01,
+    C = 0b10,
+    G = 0b11,
+}
+
+impl bio_seq::ComplementMut for Gc2 {
+    fn comp(&mut self) {
+        *self = match *self {
+            Gc2::A => Gc2::T,
+            Gc2::T => Gc2::A,
+            Gc2::C => Gc2::G,
+            Gc2::G => Gc2::C,
+        };
+    }
+}
+
+/// A user-style 3-bit codec with alternative codes (7 -> P, 5 -> R), an unused code (6) and a complement
+/// that is neither a bit inversion nor a bit reversal: P<->S, Q<->T, R<->R.
+#[derive(Clone, Copy, Debug, PartialEq, Eq, PartialOrd, Ord, Hash, Codec)]
+#[bits(3)]
+#[repr(u8)]
+pub enum Tri3 {
+    #[alt(0b111)]
+    P = 0b000,
+    Q = 0b001,
+    #[alt(0b101)]
+    R = 0b010,
+    #[display('s')]
+    S = 0b100,
+    T = 0b011,
+}
+
+impl bio_seq::ComplementMut for Tri3 {
+    fn comp(&mut self) {
+        *self = match *self {
+            Tri3::P => Tri3::S,
+            Tri3::S => Tri3::P,
+            Tri3::Q => Tri3::T,
+            Tri3::T => Tri3::Q,
+            Tri3::R => Tri3::R,
+        };
+    }
 }
 
 impl Cid {
+    pub const CUSTOM: [Cid; 2] = [Cid::X2, Cid::X3];
+    /// the seven built-in codecs followed by the harness-defined derived ones
+    pub const WITH_CUSTOM: [Cid; 9] =
+        [Cid::Dna, Cid::Iupac, Cid::Amino, Cid::Text, Cid::MDna, Cid::MIupac, Cid::Degen, Cid::X2, Cid::X3];
     pub const ALL: [Cid; 7] = [
         Cid::Dna,
         Cid::Iupac,
@@ -48,6 +106,8 @@ impl Cid {
             Cid::MDna => "masked::Dna",
             Cid::MIupac => "masked::Iupac",
             Cid::Degen => "degenerate::Dna",
+            Cid::X2 => "custom::Gc2",
+            Cid::X3 => "custom::Tri3",
         }
     }
     /// Documented symbol width (hand-typed; C05 checks `Codec::BITS` against it).
@@ -60,6 +120,8 @@ impl Cid {
             Cid::MDna => 4,
             Cid::MIupac => 5,
             Cid::Degen => 1,
+            Cid::X2 => 2,
+            Cid::X3 => 3,
         }
     }
 }
@@ -75,6 +137,8 @@ macro_rules! dispatch {
             $crate::Cid::MDna => $f::<$crate::MDna>($($args),*),
             $crate::Cid::MIupac => $f::<$crate::MIupac>($($args),*),
             $crate::Cid::Degen => $f::<$crate::DegDna>($($args),*),
+            $crate::Cid::X2 => $f::<$crate::Gc2>($($args),*),
+            $crate::Cid::X3 => $f::<$crate::Tri3>($($args),*),
         }
     };
 }
@@ -406,6 +470,16 @@ impl Sx for MIupac {
     const CID: Cid = Cid::MIupac;
     sx_comp!();
     sx_mask!();
+    sx_ord!();
+}
+impl Sx for Gc2 {
+    const CID: Cid = Cid::X2;
+    sx_comp!();
+    sx_ord!();
+}
+impl Sx for Tri3 {
+    const CID: Cid = Cid::X3;
+    sx_comp!();
     sx_ord!();
 }
 impl Sx for DegDna {
